@@ -484,6 +484,17 @@ func propC18(j *Job) {
 			}
 		}
 	}
+	for mi, mode := range modes {
+		for _, n := range []int{2, 3} {
+			if !j.Thorough() && mi > 0 && n == 3 {
+				continue
+			}
+			j.Explore(fmt.Sprintf("D2/%s/readers%d", mode.Name, n), twoReadersDeadlineScenario(withBase(mode.A, 228, 3, 4000), withBase(mode.B, 228, 4, 4000), n), Budget{D: 1}, nil)
+			if j.capped() {
+				return
+			}
+		}
+	}
 	// (3) blocking-write mode
 	for _, mode := range modes {
 		for _, nw := range []int{1, 2, 3} {
@@ -517,5 +528,64 @@ func propC18(j *Job) {
 				}
 			}
 		}
+	}
+}
+
+// twoReadersDeadlineScenario: two goroutines are blocked in ReadSCTP on one stream when its
+// read deadline expires: both must come back with the deadline error at that instant.
+func twoReadersDeadlineScenario(a, b epCfg, nReaders int) *Scenario {
+	return &Scenario{
+		Name:    "readdeadline2",
+		Horizon: 60 * time.Second,
+		Body: func(m *Sim) {
+			if !m.Connect(a, b) {
+				m.Failf("connect", "handshake failed")
+				m.closeFailedTransports()
+				m.CloseBoth()
+				return
+			}
+			sa, _ := m.As[0].OpenStream(1, PayloadTypeWebRTCBinary)
+			sb, _ := m.As[1].OpenStream(1, PayloadTypeWebRTCBinary)
+			m.streamsSeen = append(m.streamsSeen, sa, sb)
+			deadline := m.S.Now() + 300*time.Millisecond
+			_ = sb.SetReadDeadline(time.Now().Add(300 * time.Millisecond))
+			back := map[string]time.Duration{}
+			var ts []*vsched.Thread
+			for i := 0; i < nReaders; i++ {
+				name := fmt.Sprintf("rd%d", i)
+				ts = append(ts, m.Go(name, func() {
+					buf := make([]byte, 100)
+					_, _, err := sb.ReadSCTP(buf)
+					if !errors.Is(err, ErrReadDeadlineExceeded) {
+						m.Failf("deadline.error", "%s: blocked read returned %v", name, err)
+					}
+					m.mu.Lock()
+					back[name] = m.S.Now()
+					m.mu.Unlock()
+				}))
+			}
+			m.WaitUntil("readers-back", 5*time.Second, func() bool {
+				for _, t := range ts {
+					if !t.Done {
+						return false
+					}
+				}
+				return true
+			})
+			for _, t := range ts {
+				m.mu.Lock()
+				at, ok := back[t.Name]
+				m.mu.Unlock()
+				if !ok {
+					m.Failf("deadline.instant", "%d readers blocked on one stream: %s is still blocked 5 s after the read deadline (%v) expired", nReaders, t.Name, deadline)
+				} else if at != deadline {
+					m.Failf("deadline.instant", "%s returned the deadline error at %v, the deadline was %v", t.Name, at, deadline)
+				}
+			}
+			m.Observe("back=%d", len(back))
+			m.CloseBoth()
+			m.Join(ts...)
+		},
+		Final: func(m *Sim, x *Exec) { generalVerdicts(m, x, true) },
 	}
 }
